@@ -184,3 +184,13 @@ CHECKS["C13"] = {
     "technique": "deterministic simulation of the OpenMP runtime (own libgomp ABI over a seeded scheduler of real threads, one running at a time) with a happens-before race detector, checked step by step against the serial build of the same history",
     "determinism_runs": 600, "exec_timeout": 300, "batch_timeout": 900, "minimise_s": 120,
 }
+
+# C17 has two engine binaries: sequential mode under ASan/UBSan, parallel mode under the thread simulator (sim/simrt)
+CHECKS["C17"]["phases"] = [{"name": "seq", "binary": "build/asan/c17", "share": 0.8, "flavour": "asan"},
+                           {"name": "par", "binary": "build/thr/c17p", "share": 0.2, "flavour": "thr", "batch": 40}]
+CHECKS["C17"]["engine"] = "simfs+crash(+sched)"
+CHECKS["C17"]["components"]["real"].append("TasGrid::constructCommon (parallel mode: worker threads, mutex/condition-variable protocol) in the 'par' phase")
+CHECKS["C17"]["components"]["simulated"].append("'par' phase: thread scheduler of sim/simrt (seeded interleavings, spurious wake-ups, model latency on the simulated clock); the kill instant is an event of that schedule")
+CHECKS["C17"]["level_note"] = ("workloads are seeded, kill points of a sweep are exhaustive for that workload's first process; 80% of the runs are sequential mode under ASan/UBSan, 20% parallel mode under the thread simulator "
+                               "(kills fall while workers hold samples). Trusted: the engine's decoding of checkpoints through the public reader, ASan/UBSan (seq phase)")
+CHECKS["C17"]["expect_probes"] += ["reach.large_start_grid_runs", "reach.restart_after_checkpoint_with_stored_samples"]
